@@ -12,11 +12,39 @@ from . import use_repo
 from .core import HarnessError, Run
 
 
+# checks that are cheap enough to be run a second time under `python -O` (assert statements stripped): a configuration of the
+# interpreter under which the library must behave the same
+OPTIMISED_PASS = ("C05", "C06", "C15", "C16", "C17", "C18", "C19")
+
+
+def optimised_pass(run: Run, pid: str, tier: str) -> None:
+    import subprocess
+    env = dict(os.environ)
+    env.pop("PYTHONOPTIMIZE", None)
+    try:
+        out = subprocess.run([sys.executable, "-O", "-W", "ignore", "-m", "icverif.cli", pid, "--tier", tier, "--child-json"], capture_output=True, text=True,
+                             env=env, timeout=3600)
+    except Exception as e:  # noqa: BLE001
+        raise HarnessError(f"python -O pass could not run: {e}")
+    line = next((ln for ln in out.stdout.splitlines() if ln.startswith("ICVERIF-CHILD-JSON ")), None)
+    if line is None:
+        raise HarnessError(f"python -O pass gave no summary (exit {out.returncode}): {out.stderr[-400:]}")
+    summ = json.loads(line[len("ICVERIF-CHILD-JSON "):])
+    run.stats.count("python_O_pass_states", summ["states"])
+    run.stats.count("python_O_pass_transitions", summ["transitions"])
+    run.stats.note("the whole check was run a second time under `python -O` (assert statements stripped)")
+    for v in summ["violations"]:
+        msg = v.pop("message", "")
+        run.stats.violation("[python -O] " + msg, python_O=True, **v)
+    run.stats.nviol += max(0, summ["nviol"] - len(summ["violations"]))
+
+
 def main(argv: list[str] | None = None) -> int:
     ap = argparse.ArgumentParser(prog="check")
     ap.add_argument("property")
     ap.add_argument("--tier", choices=["quick", "thorough"], default=os.environ.get("VERIF_TIER") or "quick")
     ap.add_argument("--replay", default=None)
+    ap.add_argument("--child-json", action="store_true", help="internal: second pass under python -O, prints a JSON summary, writes no evidence")
     args = ap.parse_args(argv)
     pid = args.property.upper()
     try:
@@ -34,12 +62,21 @@ def main(argv: list[str] | None = None) -> int:
     try:
         if args.replay:
             doc = json.load(open(args.replay, encoding="utf-8"))
+            if doc.get("python_O") and not sys.flags.optimize:      # found under `python -O`: replay under the same interpreter configuration
+                os.execv(sys.executable, [sys.executable, "-O", "-W", "ignore", "-m", "icverif.cli", pid, "--replay", args.replay])
             reproduced, text = mod.replay(doc)
             print(text)
             print(f"[{pid}] replay of {args.replay}: {'VIOLATION REPRODUCED' if reproduced else 'not reproduced (property holds on this history)'}")
             return 1 if reproduced else 0
         run = Run(pid, args.tier, seed)
         mod.run(run)
+        if args.child_json:
+            from .core import jsonable
+            print("ICVERIF-CHILD-JSON " + json.dumps({"states": run.stats.states, "transitions": run.stats.transitions, "nviol": run.stats.nviol,
+                                                      "violations": jsonable(run.stats.violations[:6])}))
+            return 0
+        if pid in OPTIMISED_PASS and not sys.flags.optimize:
+            optimised_pass(run, pid, args.tier)
         return run.finish()
     except HarnessError as e:
         print(f"HARNESS ERROR in {pid}: {e}", file=sys.stderr)
